@@ -4,8 +4,11 @@ package schedmc
 
 import (
 	"fmt"
+	"os"
 	"sort"
 	"strings"
+	gosync "sync"
+	"time"
 
 	"github.com/olric-data/olric/internal/verif/sched"
 	"github.com/olric-data/olric/internal/verif/simcluster"
@@ -36,17 +39,68 @@ type Hist struct {
 	Calls []*Call
 	tick  int
 	Note  string // set by the judge: schedule-dependent observation made after the run (final value)
+	mu    gosync.Mutex // only contended in the free-running race pass (RunFree)
 }
 
 // Do records the invocation, runs f, records the response.
 func (h *Hist) Do(thread int, op, arg string, in interface{}, f func() simcluster.Res) simcluster.Res {
+	h.mu.Lock()
 	h.tick++
 	c := &Call{Thread: thread, Op: op, Arg: arg, Inv: h.tick, InvNS: sched.PeekNS(), In: in}
 	h.Calls = append(h.Calls, c)
+	h.mu.Unlock()
 	r := f()
+	h.mu.Lock()
 	h.tick++
 	c.Ret, c.RetNS, c.Res = h.tick, sched.PeekNS(), r
+	h.mu.Unlock()
 	return r
+}
+
+var raceSelfTest = os.Getenv("VERIF_RACE_SELFTEST") != ""
+var selfTestCounter int
+
+// RunFree runs the thread bodies of p as plain goroutines, WITHOUT the cooperative scheduler
+// (the sync shim falls through to real mutexes). It exists for the race-detector supplement: under
+// the cooperative scheduler every hand-off is a happens-before edge, so the race detector sees
+// nothing; here it sees the unsynchronised accesses the scheduler cannot. Returns false when the
+// threads did not finish within the time limit.
+func RunFree(p *Program, limit time.Duration) bool {
+	sched.ResetClock()
+	cl := simcluster.New(p.Opts)
+	if p.Setup != nil {
+		p.Setup(cl, p)
+	}
+	h := &Hist{}
+	var wg gosync.WaitGroup
+	for i, t := range p.Threads {
+		i, t := i, t
+		env := &Env{Cl: cl, H: h, Tid: i, Key: p.Key, DMap: p.DMap}
+		if t.Entry != "" {
+			kv, err := cl.Entry(t.Entry, p.DMap, p.Key)
+			if err != nil {
+				panic(fmt.Sprintf("entry %s: %v", t.Entry, err))
+			}
+			env.KV = kv
+		}
+		wg.Add(1)
+		go func() {
+			defer wg.Done()
+			defer func() { recover() }()
+			if raceSelfTest {
+				selfTestCounter++ // deliberately unsynchronised: proves the detector is armed
+			}
+			t.Body(env)
+		}()
+	}
+	done := make(chan struct{})
+	go func() { wg.Wait(); close(done) }()
+	select {
+	case <-done:
+		return true
+	case <-time.After(limit):
+		return false
+	}
 }
 
 func (h *Hist) String() string {
